@@ -13,6 +13,8 @@ mod logq;
 mod multi;
 mod resring;
 mod asyncsend;
+mod teardown;
+mod life;
 
 use std::io::{BufRead, Write};
 
@@ -42,6 +44,8 @@ fn main() {
             "multi" => multi::run(&case),
             "resring" => resring::run(&case),
             "async" => asyncsend::run(&case),
+            "teardown" => teardown::run(&case),
+            "life" => life::run(&case),
             other  => panic!("unknown case kind '{other}'"),
         };
         let text: Vec<String> = trace.iter().map(|v| v.to_string()).collect();
